@@ -468,21 +468,39 @@ def explore(ctx):
                 del seqs[vs]
         if not seqs:
             continue
+        # always (cycled): a sequence naming a glyph that is NOT EXPORTED, a sequence whose base character has no glyph in the
+        # font (the variant glyph exists), and a sequence naming a glyph the font does not have -- a sequence is kept exactly
+        # when its glyph is in the compiled font
+        odd = [None, "skipped-glyph", "base-without-glyph", None, "missing-glyph"][i % 5]
+        if odd == "skipped-glyph":
+            desc["lib"]["public.skipExportGlyphs"] = ["a.v1"]
+            seqs.setdefault("FE00", {})["0061"] = "a.v1"
+        elif odd == "base-without-glyph":
+            seqs.setdefault("FE01", {})["0063"] = "a.v1"
+        elif odd == "missing-glyph":
+            seqs.setdefault("FE00", {})["0061"] = "ghost"
         desc["lib"]["public.unicodeVariationSequences"] = seqs
         import ufo2ft
         from fontTools.ttLib import TTFont
-        tt = ufo2ft.compileTTF(build_font(desc), useProductionNames=False)
-        buf = io.BytesIO(); tt.save(buf); buf.seek(0); tt = TTFont(buf)
+        case = {"font": jsonable(desc), "variant": odd}
+        ctx.count(); ctx.klass("uvs" + (": " + odd if odd else ""))
+        try:
+            tt = ufo2ft.compileTTF(build_font(desc), useProductionNames=False)
+            buf = io.BytesIO(); tt.save(buf); buf.seek(0); tt = TTFont(buf)
+        except Exception as e:
+            ctx.spec_failure(case, "compile / save raised %s: %s\n%s" % (type(e).__name__, e, traceback.format_exc()[-800:]))
+            continue
         best = tt["cmap"].getBestCmap()
         t14 = [t for t in tt["cmap"].tables if t.format == 14]
-        ctx.count(); ctx.klass("uvs")
-        case = {"font": jsonable(desc)}
-        if len(t14) != 1:
-            ctx.spec_failure(case, "expected one format-14 subtable, got %d" % len(t14)); continue
-        got = {vs: dict(lst) for vs, lst in t14[0].uvsDict.items()}
+        present = set(tt.getGlyphOrder())
         want = {}
         for vs, m in seqs.items():
-            want[int(vs, 16)] = {int(cp, 16): (None if best.get(int(cp, 16)) == gname else gname) for cp, gname in m.items()}
-        ctx.nontriv(("uvs", repr(seqs)))
+            kept = {int(cp, 16): (None if best.get(int(cp, 16)) == gname else gname) for cp, gname in m.items() if gname in present}
+            if kept:
+                want[int(vs, 16)] = kept
+        if len(t14) != (1 if want else 0):
+            ctx.spec_failure(case, "expected %d format-14 subtable(s), got %d" % (1 if want else 0, len(t14))); continue
+        got = {vs: dict(lst) for vs, lst in t14[0].uvsDict.items()} if t14 else {}
+        ctx.nontriv(("uvs", repr(seqs), odd))
         if got != want:
             ctx.spec_failure(case, "uvsDict %r, expected %r" % (got, want))
